@@ -7,6 +7,8 @@ from collections import Counter
 from fractions import Fraction
 
 PROP = "C06"
+# kernels regenerated from /repo's source (tools/py2lean.py) vs the hand model, exhaustive small scope, inside Lean
+TWIN_CHECKS = [{"op": "twin.ngrams_exhaustive", "n": 5}]
 RULE = ("six case kinds. ngram: random corpora over {a..e} (empty documents, documents shorter than n), n in 1..3, "
         "both ngram_behaviour modes, optional pruning / fixed token_dictionary / fixed ngram_dictionary; transform "
         "inputs over a superset alphabet incl. unseen tokens, empty documents, documents missing the tokens of the last "
